@@ -1,6 +1,7 @@
 """C02 -- macro parameters bind and substitute exactly as in TeX (TexMacro.tla)."""
 import json
 from vlib import *
+from texvm import texvm_part, texvm_selftest
 
 LEVEL = "model_checking"
 
@@ -48,6 +49,8 @@ def run(ctx):
         "the call is written after a control symbol (\\!) so that a leading space of the input is a token",
         "\\endlinechar=-1 so that no end-of-line token is appended to the call",
     ]
+    # ---- the composed model: whole programs over the full primitive set (TexVM.tla) ------------
+    texvm_part(ctx, 6000 if ctx.quick else 120000, 202)
 
 
 def selftest(ctx):
